@@ -59,9 +59,22 @@ type pktIn struct {
 	Cmd      *packet.CommandPacket `json:"cmd,omitempty"`
 	Rate     int64  `json:"rate"` // rateLimitBytesPerSecond handed to WritePacket (0 = unlimited)
 	Fill     []int  `json:"fill,omitempty"` // [byte, n]: body = n copies of byte (large bodies without shipping them as hex)
+	Rnd      bool   `json:"rnd,omitempty"`  // with Fill: n pseudo-random bytes seeded by byte (incompressible: gzip takes milliseconds)
+	Reuse    bool   `json:"reuse,omitempty"` // pk: write the SAME *TransferPacket object as the previous packet again (type and body are the previous packet's)
 }
 
 func pktBody(p pktIn) []byte {
+	if len(p.Fill) == 2 && p.Rnd {
+		b := make([]byte, p.Fill[1])
+		x := uint32(p.Fill[0])*2654435761 + 12345
+		for i := range b {
+			x ^= x << 13
+			x ^= x >> 17
+			x ^= x << 5
+			b[i] = byte(x)
+		}
+		return b
+	}
 	if len(p.Fill) == 2 {
 		return bytes.Repeat([]byte{byte(p.Fill[0])}, p.Fill[1])
 	}
@@ -250,6 +263,7 @@ func runCase1(raw json.RawMessage) interface{} {
 		}
 		var wants []want
 		stopAt := -1 // index of the first packet the reader must refuse (encryption flag), -1 = none
+		var prevTp *packet.TransferPacket
 		for _, p := range c.Pkts {
 			tp := &packet.TransferPacket{PacketType: packet.Type(p.Ty)}
 			body := pktBody(p)
@@ -259,6 +273,10 @@ func runCase1(raw json.RawMessage) interface{} {
 			} else {
 				tp.Payload = body
 			}
+			if p.Reuse && prevTp != nil {
+				tp = prevTp // the caller sends one packet value twice (re-send / broadcast), possibly with another compression choice
+			}
+			prevTp = tp
 			before := buf.Len()
 			n, err := sp.WritePacket(tp, p.Compress, p.Rate)
 			wrote := buf.Len() - before
